@@ -515,3 +515,67 @@ pub fn binade_bits(kind: Kind, rng: &mut Rng, per_binade: usize) -> Vec<u64> {
     }
     v
 }
+
+/// Decimal literals `w e q` with w < 2^64 that are *exactly* halfway between two floats (and their
+/// neighbours w-1, w+1): the inputs that exercise the round-to-even window of the Eisel-Lemire path
+/// (q in about [-4, 23] for f64, [-17, 10] for f32) at and beyond both ends of the window.
+pub fn short_ties(kind: Kind, rng: &mut Rng, sink: &mut dyn FnMut(Case)) {
+    let bits = kind.mant_bits + 2; // a halfway point has mant_bits + 2 significant bits, the last one set
+    let spec = Spec::DECIMAL;
+    for q in -30i64..=30 {
+        let p5: u128 = 5u128.pow(q.unsigned_abs() as u32);
+        let mut ws: Vec<u128> = Vec::new();
+        if q >= 0 {
+            // w = d * 2^j with d*5^q odd and exactly `bits` bits long
+            let lo = ((1u128 << (bits - 1)) + p5 - 1) / p5;
+            let hi = ((1u128 << bits) - 1) / p5;
+            if hi == 0 || hi < lo {
+                continue;
+            }
+            let mut ds = vec![lo | 1, if hi % 2 == 1 { hi } else { hi.saturating_sub(1) }];
+            for _ in 0..6 {
+                ds.push((lo + rng.next_u128() % (hi - lo + 1)) | 1);
+            }
+            for d in ds {
+                if d < lo || d > hi || d % 2 == 0 {
+                    continue;
+                }
+                let maxj = (u64::MAX as u128 / d).ilog2();
+                for j in [0, maxj, rng.below(maxj as u64 + 1) as u32, rng.below(maxj as u64 + 1) as u32] {
+                    ws.push(d << j);
+                }
+            }
+        } else {
+            // w = o * 5^|q| * 2^j with o odd, exactly `bits` bits
+            if p5 >= (1u128 << (65 - bits)) {
+                continue;
+            }
+            for t in 0..8 {
+                let o = match t {
+                    0 => (1u128 << (bits - 1)) | 1,
+                    1 => (1u128 << bits) - 1,
+                    _ => ((1u128 << (bits - 1)) | (rng.next_u128() & ((1u128 << (bits - 1)) - 1))) | 1,
+                };
+                let w = o * p5;
+                if w > u64::MAX as u128 {
+                    continue;
+                }
+                let maxj = (u64::MAX as u128 / w).ilog2();
+                for j in [0, maxj, rng.below(maxj as u64 + 1) as u32] {
+                    ws.push(w << j);
+                }
+            }
+        }
+        for w in ws {
+            for (dw, tag) in [(0i64, "tie-short-decimal"), (-1, "below-halfway"), (1, "above-halfway")] {
+                let v = (w as i128 + dw as i128) as u128;
+                let d = Big::from_u128(v).to_digits(10);
+                let mut st = Style::default();
+                st.int_len = usize::MAX;
+                sink(Case { text: render(&spec, &d, -q, &st), tag });
+                let st = random_style(rng, d.len());
+                sink(Case { text: render(&spec, &d, -q, &st), tag });
+            }
+        }
+    }
+}
